@@ -4,6 +4,7 @@ R1 who may turn the descriptor-chain slices into raw pointers
 R2 every path that lets guest memory be written marks exactly the written amount dirty (same amount it marks used)
 R3 consume_for_write / consume_for_read pass the constant flag; writers use the former, readers the latter
 R4 IoBuffers::mark_dirty walks the buffers like the allocator does (truncate to the count, stop only at count 0)
+R2 (cont.) only IoBuffers::consume and the async file read may call mark_dirty
 """
 from pyfbr import core, vf
 from rules import common
